@@ -303,3 +303,50 @@ func forall(lo, hi int, f func(int) bool) bool {
 //@   ensures forall(0, len(sm.list), func(i int) bool { return forall(0, i, func(j int) bool { return cmp.Compare(sm.list[j], sm.list[i]) < 0 }) })
 //@   loop 0:
 //@     invariant len(values) == len(sm.list) && forall(0, idx_, func(j int) bool { return same(values[j], sm.m[sm.list[j]]) })
+
+// ---- binary heap (C19, C10). The heap order: every parent compares <= each of its children.
+// hpOrd(h, x): the order holds for every parent/child pair whose CHILD is not x (x = -1: all
+// pairs); hpSkip(h, x): it holds for every pair in which x is neither parent nor child;
+// hpGrand(h, x): the parent of x compares <= the children of x (so x can be lifted out).
+// compare is required to be a total preorder (as every comparator the engine passes is).
+//@ define hpChild(h, p, c) := (c < len(h.data) ==> h.compare(h.data[p], h.data[c]) <= 0)
+//@ define hpOrd(h, x) := forall(func(pp_ int) bool { return 0 <= pp_ ==> (2*pp_+1 != x ==> hpChild(h, pp_, 2*pp_+1)) && (2*pp_+2 != x ==> hpChild(h, pp_, 2*pp_+2)) })
+//@ define hpSkip(h, x) := forall(func(pp_ int) bool { return 0 <= pp_ && pp_ != x ==> (2*pp_+1 != x ==> hpChild(h, pp_, 2*pp_+1)) && (2*pp_+2 != x ==> hpChild(h, pp_, 2*pp_+2)) })
+//@ define hpGrand(h, x) := (x > 0 ==> hpChild(h, (x-1)/2, 2*x+1) && hpChild(h, (x-1)/2, 2*x+2))
+//@ define hpLeq(h, x) := hpChild(h, x, 2*x+1) && hpChild(h, x, 2*x+2)
+//@ define hpCmp(h) := forall(func(a T) bool { return h.compare(a, a) == 0 }) &&
+//@        forall(func(a T, b T, c T) bool { return h.compare(a, b) <= 0 && h.compare(b, c) <= 0 ==> h.compare(a, c) <= 0 }) &&
+//@        forall(func(a T, b T) bool { return h.compare(a, b) >= 0 ==> h.compare(b, a) <= 0 }) &&
+//@        forall(func(a T, b T) bool { return h.compare(a, b) < 0 ==> h.compare(b, a) >= 0 })
+
+//@ func Heap.swap
+//@   property C19 C10
+//@   requires 0 <= i && i < len(h.data) && 0 <= j && j < len(h.data)
+//@   modifies h.data
+//@   ensures len(h.data) == old(len(h.data)) && h.data[i] == old(h.data[j]) && h.data[j] == old(h.data[i])
+//@   ensures forall(0, len(h.data), func(k int) bool { return k != i && k != j ==> h.data[k] == old(h.data[k]) })
+
+// up(i): the only pair that may be out of order is (parent(i), i); afterwards the heap order holds.
+//@ func Heap.up
+//@   property C19 C10
+//@   requires 0 <= i && i < len(h.data) && hpCmp(h) && hpOrd(h, i) && hpGrand(h, i)
+//@   modifies h.data
+//@   ensures len(h.data) == old(len(h.data)) && hpOrd(h, -1)
+//@   loop 0:
+//@     invariant 0 <= i && i < len(h.data) && len(h.data) == old(len(h.data)) && hpOrd(h, i) && hpGrand(h, i)
+
+// down(i): the only pairs that may be out of order are (i, children of i) and (parent(i), i); it
+// reports whether the element moved. If it moved the heap order holds everywhere; if it did not,
+// nothing changed and the element is <= its children already (Fix then calls up).
+//@ define hpPar(h, x) := forall(func(pp_ int) bool { return 0 <= pp_ && pp_ != x ==> hpChild(h, pp_, 2*pp_+1) && hpChild(h, pp_, 2*pp_+2) })
+//@ func Heap.down
+//@   property C19 C10
+//@   requires 0 <= i && i < len(h.data) && hpCmp(h) && hpSkip(h, i) && hpGrand(h, i)
+//@   modifies h.data
+//@   ensures len(h.data) == old(len(h.data))
+//@   ensures result ==> hpPar(h, -1)
+//@   ensures !result ==> same(h.data, old(h.data)) && hpLeq(h, i)
+//@   loop 0:
+//@     invariant i0 <= i && i < len(h.data) && len(h.data) == old(len(h.data)) && hpGrand(h, i)
+//@     invariant i == i0 ==> same(h.data, old(h.data)) && hpSkip(h, i)
+//@     invariant i > i0 ==> hpPar(h, i)
